@@ -87,7 +87,7 @@ def route_of(c):
 def sig_mesh(c, pred, lev, part):
     pk = re.sub(r"\d+$", "", part) if part else ""
     return {"kind": "mesh", "src": c["srcname"], "fam": c["fam"], "dim": c["dim"], "pred": pred, "level": lev, "partkind": pk,
-            "via": c.get("via", "node"), "route": route_of(c)}
+            "via": c.get("via", "node"), "route": route_of(c), "perm": c.get("perm", "")}
 
 
 def _run(chk, tier, rng, binary, gdir):
@@ -127,7 +127,9 @@ def _run(chk, tier, rng, binary, gdir):
                 c["nref"] = nref
                 if tier == "quick" and dim == 3 and mode == "pair" and i % 8 != 0:
                     c["nref"] = 1
-                c["via"] = "refinery" if i % 3 == 2 else "node"
+                # refinement route: RootMeshNode::refine_unique | StandardRefinery objects | one mesh object overwritten in place
+                # by its refinement (mesh = std::move(fine), repeatedly)
+                c["via"] = ("node", "node", "refinery", "inplace", "node", "refinery")[i % 6]
                 # route "deduct" = ConformalMesh::deduct_topology_from_top (with boundary facet re-orientation),
                 # route "factory" = RedundantIndexSetBuilder only (what the mesh file reader does)
                 c["src"]["raw"]["route"] = "deduct" if i % 2 == 0 else "factory"
@@ -160,11 +162,42 @@ def _run(chk, tier, rng, binary, gdir):
             facs.append(("star", {"fac": "star"}, 8))
         for nm, src, nc in facs:
             L = nref_for(nc, dim, fam, maxcells, maxref)
-            for via in ("node", "refinery"):
+            for via in ("node", "refinery", "inplace"):
                 faccases.append({"kind": "mesh", "id": "fac_%s_%s%d_%s" % (nm, fam, dim, via), "fam": fam, "dim": dim, "src": src,
                                  "srcname": "factory:" + nm, "nref": max(1, L), "maxcells": maxcells, "via": via,
                                  "parts": [{"name": "bnd", "boundary": True}]})
-    cases += filecases + faccases
+    # renumbering of the whole node: RootMeshNode::create_permutation with every PermutationStrategy, on meshes that carry
+    # mesh parts of all dimensions (boundary, file parts, cell subsets with and without closure), then refinement
+    STRATEGIES = ["random", "lexicographic", "colored", "cuthill_mckee", "cuthill_mckee_reversed", "geometric_cuthill_mckee",
+                  "geometric_cuthill_mckee_reversed"]
+    permcases = []
+
+    def cellparts(nc):
+        sub = sorted(rng.sample(range(nc), max(1, nc // 3)))
+        bare = rng.sample(range(nc), max(1, min(3, nc // 4)))
+        return [{"name": "vbnd", "boundary": True}, {"name": "vsub", "cellidx": sub, "deduce": "top"}, {"name": "vbare", "cellidx": bare},
+                {"name": "vone", "cellidx": [nc - 1], "deduce": "top"}]
+    pbases = []
+    for fam, dim in SHAPES:
+        per = 1 if fam == "hypercube" else (4 if dim == 2 else 24)
+        mult = 12 if (fam, dim) == ("simplex", 3) else (1 << dim)
+        lev = 2 if (fam, dim) == ("hypercube", 2) else (0 if (fam, dim) == ("simplex", 3) else 1)
+        pbases.append(("factory:unitcube", fam, dim, {"fac": "unitcube", "level": lev}, per * mult ** lev))
+        pbases.append(("factory:struct", fam, dim, {"fac": "struct", "nx": 3, "ny": 2, "nz": 2}, per * (6 if dim == 2 else 12)))
+    pf = {"unit-square-quad.xml", "l-shape-tria.xml", "unit_circle_quad_5.xml", "cube_cylinder_hole_hexa_8.xml", "unit-cube-tetra.xml", "unit_ring_quad_32.xml"}
+    for path, fam, dim, ncells in pick_files(tier):
+        if tier == "thorough" or os.path.basename(path) in pf:
+            if ncells * (12 if (fam, dim) == ("simplex", 3) else (1 << dim)) <= maxcells:
+                pbases.append(("file:" + os.path.basename(path), fam, dim, {"file": path}, ncells))
+    for name, fam, dim, src, nc in pbases:
+        for st in STRATEGIES:
+            if tier == "thorough" and name.startswith("file:") and nc > 300 and st not in ("lexicographic", "random", "cuthill_mckee"):
+                continue
+            permcases.append({"kind": "mesh", "id": "perm_%s_%s%d_%s" % (re.sub(r"[^A-Za-z0-9]+", "_", name), fam, dim, st), "fam": fam, "dim": dim,
+                              "src": src, "srcname": "renumber:" + name, "nref": 1, "maxcells": maxcells, "via": "node", "perm": st,
+                              "parts": cellparts(nc)})
+    chk.extra["renumbering_cases"] = len(permcases)
+    cases += filecases + faccases + permcases
 
     failed = []   # (case, result) of cases the harness could not complete
 
@@ -207,7 +240,7 @@ def _run(chk, tier, rng, binary, gdir):
             nraw, nparts = vmeshlib.renumber(raw, rots[(fam, dim)], rng, parts)
             variants.append({"kind": "mesh", "id": c["id"] + "_perm%d" % k, "fam": fam, "dim": dim, "src": {"raw": nraw},
                              "srcname": "perm:" + c["srcname"], "nref": c["nref"], "maxcells": c["maxcells"], "parts": nparts,
-                             "via": "refinery" if k % 2 else "node"})
+                             "via": ("node", "refinery", "inplace")[(k + len(variants)) % 3]})
             variants[-1]["src"]["raw"]["route"] = "deduct" if (k + len(variants)) % 2 == 0 else "factory"
     good += harness_pass(variants)
 
@@ -270,7 +303,8 @@ def _run(chk, tier, rng, binary, gdir):
     chk.extra["cases_with_exact_geometry"] = ngeo
     chk.extra["largest_fine_mesh_cells"] = max([fc.get("fine_cells", 0) for fc in full] or [0])
     chk.exhaustive = True
-    chk.rule = ("TLC enumerates (spec/MeshGen.tla) every gluing of two reference cells (all facets x all admissible vertex bijections), every "
+    chk.rule = ("[routes: RootMeshNode::refine_unique, StandardRefinery objects, one mesh refined in place by move-assignment; "
+                "RootMeshNode::create_permutation with all 7 strategies judged by Relabelled/PartRelabelled/PermutationsStored] TLC enumerates (spec/MeshGen.tla) every gluing of two reference cells (all facets x all admissible vertex bijections), every "
                 "rotation of the single cell and every 2D three-cell chain, each with its catalogue of mesh parts; plus shipped mesh files, "
                 "structured factories and seeded re-numbered/re-oriented variants. Each case = all levels produced by the real refinement, "
                 "judged by TLC against spec/MeshTopo.tla; non-trivial = at least one refinement; distinct = distinct case id (mesh x route)")
